@@ -241,6 +241,7 @@ type stats struct {
 	sigSample   map[string]any
 	sigFailure  map[string]Failure
 	violSigs    map[string]bool
+	reported    sync.Map // signatures already reported as violations (any sub-check of this process)
 	unconfirmed int
 	inconcl     int
 	slow        int
@@ -370,6 +371,19 @@ func (e *engine) processImg(w *worker, subName string, c any, img []byte, filt [
 	if !pending {
 		return nil, fr
 	}
+	if !fr.timedOut {
+		// every unlisted signature of this case has been confirmed, minimised and reported already: no second confirmation
+		repeat := true
+		for _, f := range fr.fails {
+			if _, done := st.reported.Load(f.Sig()); knownID(f) == "" && !done {
+				repeat = false
+			}
+		}
+		if repeat {
+			rec.Label(subName, "repeat-of-reported-violation", 1)
+			return nil, fr
+		}
+	}
 	// anything unlisted (or a timeout) is re-run alone in a fresh worker before it counts
 	e.excl.Lock()
 	fails, inconcl := e.evalAlone(img, filt)
@@ -497,6 +511,7 @@ func (s *session) report(subName string, c any, f Failure) {
 	s.st.violSigs[f.Sig()] = true
 	s.nViol++
 	s.mu.Unlock()
+	s.st.reported.Store(f.Sig(), true)
 	if cc, ok := c.(Case); ok {
 		s.e.excl.Lock()
 		c = s.e.minimize(cc, f.Sig())
@@ -779,5 +794,6 @@ func TestProp(t *testing.T) {
 		vt.Func[Case]{Name: sub, Body: campaign, One: runOne},
 		vt.Func[Case]{Name: subFields, Body: fieldsEnum, One: runOne},
 		vt.Func[FCase]{Name: subFilters, Body: filterStreams, One: runOneF},
+		vt.Func[Case]{Name: subTree, Body: treePointers, One: runOne},
 	)
 }
